@@ -64,6 +64,12 @@ CHECKS = {
    text="Histories of try-setters (values in, at and just over each limit), negate, abs and checked_mul are interpreted step by step against the model; SignedDuration add/sub/mul/div/neg/abs/saturating/views/constructors and conversions to and from Span and std Duration are compared with exact i128 arithmetic, overflow reported exactly when unrepresentable; float constructors on raw bit patterns and boundary values.",
    note="Stated tolerances: +-1ns for f64 constructors (round-to-nearest implied by the rustdoc example), +-64ns for f32 (documented precision loss), 4e-16 relative for float views. SignedDuration::new inputs that are documented to panic are not called.",
    design="DESIGN.md section 3 C12"),
+ "C13": dict(
+   technique="stateful (model-based) proptest: generated histories of 35 public operation kinds interpreted step by step; invariant evaluated after every successful step through jiff's own lookups and through the independent zone reader; histories shrink as one value",
+   category="exploration",
+   text="Start values in any database zone around transitions, then 1..12 operations (arithmetic, rounding, every with-builder incl. offset/conflict/disambiguation strategies, zone changes, day/month/year navigation, print->parse, strftime->strptime, civil->zoned strategies, until-then-add-back, epoch neighbourhood jumps). After each step: stored offset == zone's offset at the instant, stored civil == instant shifted by it (both vs jiff and vs the reference), instant coherent; finally Eq/Ord/Hash depend on the instant only.",
+   note="Operations returning Err leave the state unchanged (counted). Trusted: reftz.rs. Zones are those reachable by name through the global database, fixed offsets and UTC.",
+   design="DESIGN.md section 3 C13"),
  "C14": dict(
    technique="model-based differential testing of the following/preceding iterators against the reference transition list (explicit + rule-generated), bounded pulls and to-exhaustion runs under a step cap; structured starts around every hand-over + proptest",
    category="exploration",
